@@ -35,7 +35,7 @@ RULE = (
     "conflict / an excluded or unselected source item / >=2 jobs to synchronise in parallel exists; distinct by case hash."
 )
 CLASSES = [
-    "dry_into_remains_of_interrupted_job", "dry_bulk_stale_cache", "parallel_overlapping_jobs", "dry_clone", "dry_copy_file", "dry_copytree", "dry_doc_flat", "dry_doc_nested", "dry_conflict", "dry_job_level",
+    "dry_into_remains_of_interrupted_job", "dry_bulk_stale_cache", "parallel_overlapping_jobs", "deep_sizes_differ", "dry_symlink_in_destination", "dry_clone", "dry_copy_file", "dry_copytree", "dry_doc_flat", "dry_doc_nested", "dry_conflict", "dry_job_level",
     "dry_new_job_job_level", "deep_job", "deep_project", "exclude_in_clone", "exclude_in_merge", "exclude_in_copytree",
     "selection_ids", "selection_jobs", "parallel_2", "parallel_true", "dry_mixed_type_typeerror",
 ]
@@ -79,6 +79,19 @@ def _run_special(case, ctx):
             if case.get("dst_doc") is not None:
                 fsutil.write_file(os.path.join(jd.path, "signac_job_document.json"), json.dumps(case["dst_doc"]).encode())
             cl = ["dry_into_remains_of_interrupted_job"]
+        elif kind == "symlink":
+            # the destination holds a file as a symbolic link (to shared data next to the project) that differs from the source's file
+            spt = {"a": 0}
+            js, jd = src.open_job(spt).init(), dst.open_job(spt).init()
+            fsutil.write_file(js.fn("f.txt"), b"source data")
+            fsutil.write_file(js.fn("sub/h.txt"), b"source nested")
+            shared = os.path.join(base, "shared")
+            fsutil.write_file(os.path.join(shared, "f.txt"), b"shared data!")
+            fsutil.write_file(os.path.join(shared, "h.txt"), b"shared nested")
+            os.symlink(os.path.join(shared, "f.txt"), jd.fn("f.txt"))
+            os.makedirs(jd.fn("sub"))
+            os.symlink(os.path.join(os.pardir, os.pardir, os.pardir, os.pardir, "shared", "h.txt"), jd.fn("sub/h.txt"))
+            cl = ["dry_symlink_in_destination"]
         else:
             n, cached = int(case.get("n", 513)), int(case.get("cached", 3))
             for proj, has_cache in ((src, case.get("src_cache", True)), (dst, case.get("dst_cache", True))):
@@ -93,7 +106,13 @@ def _run_special(case, ctx):
         exc = None
         try:
             with contextlib.redirect_stdout(io.StringIO()):
-                if kind == "remains":
+                if kind == "symlink":
+                    st_ = {"always": sync.FileSync.always, "update": sync.FileSync.update}[case.get("strategy", "always")]
+                    if case.get("entry") == "Job.sync":
+                        d2.open_job(spt).sync(s2.open_job(spt), strategy=st_, recursive=True, dry_run=True)
+                    else:
+                        d2.sync(s2, strategy=st_, recursive=True, dry_run=True, parallel=case.get("parallel", False))
+                elif kind == "remains":
                     if case.get("entry") == "sync_jobs":
                         sync.sync_jobs(s2.open_job(spt), d2.open_job(spt), dry_run=True)
                     else:
@@ -277,12 +296,17 @@ def _run(case, ctx, plan, src_root, dst_root, bases):
             dd = sp.dst_dirs(pre_dst, j["id"])
             tree, pre_tree = sp.job_tree(post_dst, j["id"]), sp.job_tree(pre_dst, j["id"])
             for rel, fs in sp.file_table(plan, j, pre_src, pre_dst).items():
-                if not sp.deep_only(fs) or sp.file_status(plan, j, rel, fs, dd) != "conflict":
+                if sp.file_status(plan, j, rel, fs, dd) != "conflict":
                     continue
-                cl.add("deep_job" if plan["level"] == "job" else "deep_project")
+                # (content decides under deep=True: pairs of equal size and mtime, but just as well a file that
+                # is a proper prefix of the other one -- an empty file, whole 8 KiB chunks)
+                if sp.deep_only(fs):
+                    cl.add("deep_job" if plan["level"] == "job" else "deep_project")
+                else:
+                    cl.add("deep_sizes_differ")
                 nontrivial = True
                 v = sp.verdict(opts["strategy"], rel, fs)
-                info = (f"file {rel!r} of job {j['sp']!r}: equal size ({len(fs['src'])}B) and mtime, different bytes; "
+                info = (f"file {rel!r} of job {j['sp']!r}: sizes {len(fs['src'])}B / {len(fs['dst'])}B, different bytes; "
                         f"strategy={opts['strategy']!r}; {desc}")
                 now = tree.get(rel)
                 calls = out.get("strategy_calls")
@@ -400,6 +424,9 @@ for _entry in ("Project.sync", "sync_projects", "Job.sync", "sync_jobs"):
         {"jobs": [_DEEP], "src_pdoc": None, "dst_pdoc": None, "options": _o(deep=True, entry=_entry)},
         {"jobs": [_DEEP], "src_pdoc": None, "dst_pdoc": None, "options": _o(deep=True, strategy="always", entry=_entry)},
         {"jobs": [_DEEP], "src_pdoc": None, "dst_pdoc": None, "options": _o(deep=True, strategy="never", entry=_entry)},
+        # deep: one file is a proper prefix of the other and ends on a chunk boundary (empty, 8 KiB)
+        {"jobs": [_job({"f.txt": _f("", "b", 1, 2), "g.bin": _f(sp.CHUNK, sp.CHUNK + "tail", 2, 1)}, None, None, {"a": 0})], "src_pdoc": None, "dst_pdoc": None, "options": _o(deep=True, entry=_entry)},
+        {"jobs": [_job({"f.txt": _f("", "b", 1, 2), "g.bin": _f(sp.CHUNK, sp.CHUNK + "tail", 2, 1)}, None, None, {"a": 0})], "src_pdoc": None, "dst_pdoc": None, "options": _o(deep=True, strategy="always", entry=_entry)},
         # deep in a dry run: the conflict is reported / the strategy is asked, nothing changes
         {"jobs": [_DEEP], "src_pdoc": None, "dst_pdoc": None, "options": _o(deep=True, dry_run=True, entry=_entry)},
         {"jobs": [_DEEP], "src_pdoc": None, "dst_pdoc": None, "options": _o(deep=True, dry_run=True, strategy={"table": {"f.txt": True, "g.bin": False}}, entry=_entry)},
@@ -434,6 +461,8 @@ SPECIAL = [
     {"special": "remains", "entry": "Job.sync", "src_doc": {"x": 1}, "dst_doc": None},
     {"special": "remains", "entry": "sync_jobs", "src_doc": {"x": 1}, "dst_doc": {"y": 2}},
     {"special": "remains", "entry": "Job.sync", "src_doc": None, "dst_doc": None},
+    {"special": "symlink", "entry": "Job.sync", "strategy": "always"},
+    {"special": "symlink", "entry": "Project.sync", "strategy": "always", "parallel": 2},
     {"special": "parallel_overlap", "exclude": ["nothing_matches_this"]},
     {"special": "parallel_overlap", "exclude": "z.*"},
     {"special": "bulk", "entry": "sync_projects", "n": 513, "cached": 3},
@@ -446,7 +475,7 @@ def run(ctx):
     if ctx.worker == 0:
         for c in CONSTRUCTED:
             ctx.apply(c)
-    for i, c in enumerate(SPECIAL if ctx.tier != "quick" else SPECIAL[:7]):
+    for i, c in enumerate(SPECIAL if ctx.tier != "quick" else SPECIAL[:9]):
         if i % ctx.nworkers == ctx.worker:
             ctx.apply(c)
     drive(ctx, sp.pair_cases("c15"), 750 if ctx.tier == "quick" else 9000, ctx.apply)
